@@ -1307,6 +1307,10 @@ fn check_session(rep: &mut Report, drv: &mut Driver, variants: &[Vec<Vec<It>>], 
         if expected_paths.contains_key(p) || spec.items.contains_key(p) || probes.iter().any(|q| &q.path == p) {
             continue;
         }
+        // a name that is not an identifier cannot be written in a script (`u64. f` parses as `u64.f`)
+        if p.iter().any(|seg| lex_code(seg) != 18) {
+            continue;
+        }
         // a path below something a use inside a module put at the root (known finding) is not probed
         if spec.uses.iter().any(|((s, b), (_, n))| *n && !s.is_empty() && b == &p[0]) {
             continue;
@@ -1353,7 +1357,7 @@ fn check_session(rep: &mut Report, drv: &mut Driver, variants: &[Vec<Vec<It>>], 
             match (o, want) {
                 (Outcome::Panic(m), _) => {
                     let key = format!("panic add{}{}", if suffix.is_empty() { format!(" {}", m.split(':').next().unwrap_or("")) } else { suffix.clone() }, hist(k));
-                    rep.violation(&format!("Runtime::add panicked (add {k}): {m}"), &key, input(libs));
+                    viol(rep, &format!("Runtime::add panicked (add {k}): {m}"), &key, input(libs));
                 }
                 (Outcome::Ok, "err") => {
                     let d = defects.iter().next().cloned();
@@ -1364,17 +1368,17 @@ fn check_session(rep: &mut Report, drv: &mut Driver, variants: &[Vec<Vec<It>>], 
                         Some(Defect::EmptyUsePath) => "accepted-empty-use-path",
                         _ => "accepted-unregistered-type",
                     };
-                    rep.violation(&format!("add {k}: library with defect {:?} was accepted ({note})", defects), &format!("{key}{suffix}{}", hist(k)), input(libs));
+                    viol(rep, &format!("add {k}: library with defect {:?} was accepted ({note})", defects), &format!("{key}{suffix}{}", hist(k)), input(libs));
                 }
                 (Outcome::Err(kind), "ok") => {
-                    rep.violation(&format!("add {k}: library without any of the four defects was rejected: {kind}"), &format!("rejected-valid {kind}{suffix}{}", hist(k)), input(libs));
+                    viol(rep, &format!("add {k}: library without any of the four defects was rejected: {kind}"), &format!("rejected-valid {kind}{suffix}{}", hist(k)), input(libs));
                 }
                 _ => {}
             }
         }
         // --- a rejected add leaves the runtime as it was (what the public getters show)
         for (k, what) in &leftovers {
-            rep.violation(&format!("add {k} was rejected ({}) but changed the runtime: {what}", outs[*k].show()), &format!("state-after-failed-add getters {}", outs[*k].show()), input(libs));
+            viol(rep, &format!("add {k} was rejected ({}) but changed the runtime: {what}", outs[*k].show()), &format!("state-after-failed-add getters {}", outs[*k].show()), input(libs));
         }
         // --- reachability
         let mut seen: Vec<Seen> = vec![];
@@ -1382,7 +1386,7 @@ fn check_session(rep: &mut Report, drv: &mut Driver, variants: &[Vec<Vec<It>>], 
             let h = catch_unwind(AssertUnwindSafe(|| rt.add(helpers(&markers))));
             if !matches!(h, Ok(Ok(()))) {
                 // the helpers mention registered types only and use reserved names
-                rep.violation("the helper functions over the registered types were rejected", &format!("rejected-valid helpers{}", hist(libs.len())), input(libs));
+                viol(rep, "the helper functions over the registered types were rejected", &format!("rejected-valid helpers{}", hist(libs.len())), input(libs));
             } else {
                 seen = run_probes(&rt, &probes);
                 for ((pr, s), m) in probes.iter().zip(&seen).zip(&mres) {
@@ -1394,17 +1398,17 @@ fn check_session(rep: &mut Report, drv: &mut Driver, variants: &[Vec<Vec<It>>], 
                     // (the open finding about a use inside a module keeps its keys whatever the history)
                     let hist = |k: usize| if pr.nested_use { "" } else { hist(k) };
                     match (pr.expect, s) {
-                        (_, Seen::Panic) => rep.violation(&format!("compiler panicked on a script using {}", pr.path.join(".")), &format!("panic compile{nest}{}", hist(libs.len())), input(libs)),
+                        (_, Seen::Panic) => viol(rep, &format!("compiler panicked on a script using {}", pr.path.join(".")), &format!("panic compile{nest}{}", hist(libs.len())), input(libs)),
                         (Some(t), Seen::Tag(x)) if *x == t => {}
                         (Some(_), Seen::TypeOk) => {}
-                        (Some(t), other) => rep.violation(
+                        (Some(t), other) => viol(rep, 
                             &format!("item with tag {t} ({}) not usable at its {} path {}: {:?}", pr.info.kind, pr.what, pr.path.join("."), other),
                             &format!("unreachable-at-declared-path {}{nest}{}{}", pr.what, if nest.is_empty() && pr.what == "use" && sit == "use-path-3plus" { " use-path-3plus" } else { "" }, hist(libs.len())), input(libs)),
                         (None, Seen::No) => {}
-                        (None, other) if pr.what == "failed-add" => rep.violation(
+                        (None, other) if pr.what == "failed-add" => viol(rep, 
                             &format!("{} of a REJECTED library is usable from a script at {}: {:?}", pr.info.kind, pr.path.join("."), other),
                             &format!("state-after-failed-add reachable {}", pr.info.kind), input(libs)),
-                        (None, other) => rep.violation(
+                        (None, other) => viol(rep, 
                             &format!("item is usable at the undeclared path {} ({}): {:?}", pr.path.join("."), pr.what, other),
                             &format!("reachable-at-wrong-path {}{nest}{}", pr.what, hist(libs.len())), input(libs)),
                     }
@@ -1416,7 +1420,7 @@ fn check_session(rep: &mut Report, drv: &mut Driver, variants: &[Vec<Vec<It>>], 
             None => first = Some((classes.clone(), seen.clone())),
             Some((c0, s0)) => {
                 if *c0 != classes || (*s0 != seen && !s0.is_empty() && !seen.is_empty()) {
-                    rep.violation(
+                    viol(rep, 
                         &format!("reordering the items changes the result: {:?} vs {:?}", c0, classes),
                         &format!("order-dependent{suffix}{}", hist(libs.len())),
                         json!({"libs": libs_json(libs), "first_order": libs_json(&variants[0]), "note": note, "index": index}),
@@ -2409,7 +2413,7 @@ fn macro_cases(rep: &mut Report, drv: &mut Driver, only: Option<&str>) {
                 rep.class("macro raw identifier: rejected when the library is built");
                 continue;
             }
-            rep.violation(&format!("{note}: building the library panicked: {}", PANIC_MSG.lock().map(|g| g.clone()).unwrap_or_default()), "panic build macro", input.clone());
+            viol(rep, &format!("{note}: building the library panicked: {}", PANIC_MSG.lock().map(|g| g.clone()).unwrap_or_default()), "panic build macro", input.clone());
             continue;
         };
         if raw {
@@ -2437,7 +2441,7 @@ fn macro_cases(rep: &mut Report, drv: &mut Driver, only: Option<&str>) {
                     // holds), but the source no longer does what the model says
                     rep.mismatch(&format!("{note}: the `use` item built by library! lists {:?}; the declaration lists {:?} (order)", got, want), input.clone());
                 } else if got != want {
-                    rep.violation(
+                    viol(rep, 
                         &format!("{note}: the `use` item built by library! names {:?}; the declaration names {:?}", got, want),
                         "macro-use-paths",
                         json!({"macro": note, "libs": libs_json(&[tree.clone()]), "use": text, "declaration": k, "emitted": got, "named": want}),
@@ -2445,14 +2449,14 @@ fn macro_cases(rep: &mut Report, drv: &mut Driver, only: Option<&str>) {
                 }
             }
             if emitted.len() != decls.len() {
-                rep.violation(&format!("{note}: {} use declarations, {} Use items", decls.len(), emitted.len()), "macro-use-paths", input.clone());
+                viol(rep, &format!("{note}: {} use declarations, {} Use items", decls.len(), emitted.len()), "macro-use-paths", input.clone());
             }
         }
         // (a wrong `use` path is reported above; here the tree apart from what the uses say)
         let strip = |x: String| if uses.is_some() { x.split(' ').filter(|w| !w.starts_with("use") && !w.contains("::")).collect::<Vec<_>>().join(" ") } else { x };
         let (a, b) = (strip(dump_line(&dumped, true)), strip(tree_line(&tree, true)));
         if a != b {
-            rep.violation(&format!("{note}: library! built [{a}], written [{b}]"), "macro-item-tree", input.clone());
+            viol(rep, &format!("{note}: library! built [{a}], written [{b}]"), "macro-item-tree", input.clone());
         } else {
             let (a, b) = (strip(dump_line(&dumped, false)), strip(tree_line(&tree, false)));
             if a != b {
@@ -2485,12 +2489,64 @@ fn macro_cases(rep: &mut Report, drv: &mut Driver, only: Option<&str>) {
                     };
                     if !ok {
                         let key = if sn == Seen::Panic { "panic compile macro" } else { "unreachable-at-declared-path macro" };
-                        rep.violation(&format!("{note}: item with tag {:?} not usable at {}: {:?}", p.expect, p.path.join("."), sn), key, input.clone());
+                        viol(rep, &format!("{note}: item with tag {:?} not usable at {}: {:?}", p.expect, p.path.join("."), sn), key, input.clone());
                     }
                 }
             }
-            Ok(Err(e)) => rep.violation(&format!("{note}: rejected: {}", err_kind(&e)), &format!("rejected-valid {} macro", err_kind(&e)), input.clone()),
-            Err(_) => rep.violation(&format!("{note}: panicked"), "panic add macro", input.clone()),
+            Ok(Err(e)) => viol(rep, &format!("{note}: rejected: {}", err_kind(&e)), &format!("rejected-valid {} macro", err_kind(&e)), input.clone()),
+            Err(_) => viol(rep, &format!("{note}: panicked"), "panic add macro", input.clone()),
+        }
+    }
+}
+
+// ------------------------------------------------------------------ reporting
+
+static PER_KEY: Mutex<BTreeMap<String, u32>> = Mutex::new(BTreeMap::new());
+/// at most this many violations per key are kept (per worker, and again when the workers' reports are merged):
+/// the open finding's keys fire on every session with a `use` inside a module and must not crowd out a rare key
+const KEEP_PER_KEY: u32 = 4;
+
+fn viol(rep: &mut Report, what: &str, key: &str, input: J) {
+    let mut g = PER_KEY.lock().unwrap();
+    let c = g.entry(key.to_string()).or_insert(0);
+    if *c < KEEP_PER_KEY {
+        *c += 1;
+        rep.violation(what, key, input);
+    }
+}
+
+/// `worker::run_batches` with the violations merged per key (see `KEEP_PER_KEY`) instead of first come first kept
+fn run_batches_per_key(prefix: &[&str], total: u64, batch: u64, timeout: Duration, rep: &mut Report, mut on_crash: impl FnMut(&mut Report, u64, &Ended)) {
+    let mut per_key: BTreeMap<String, u32> = BTreeMap::new();
+    let mut from = 0u64;
+    while from < total {
+        let n = batch.min(total - from);
+        let (f, c) = (from.to_string(), n.to_string());
+        let mut args: Vec<&str> = prefix.to_vec();
+        args.push(&f);
+        args.push(&c);
+        let (ended, out) = worker::run_worker_keep_stdout(&args, timeout);
+        let crashed = !matches!(ended, Ended::Exit(0, _));
+        if let Some(mut v) = Report::parse_stdout(&out) {
+            if let Some(a) = v["impl_violations"].as_array().cloned() {
+                for x in a {
+                    let k = x["key"].as_str().unwrap_or("").to_string();
+                    let c = per_key.entry(k).or_insert(0);
+                    if *c < KEEP_PER_KEY && rep.impl_violations.len() < 2000 {
+                        *c += 1;
+                        rep.impl_violations.push(x);
+                    }
+                }
+            }
+            v["impl_violations"] = json!([]);
+            rep.merge_json(&v);
+        }
+        if crashed {
+            let last = out.lines().rev().find_map(|l| l.strip_prefix("START ")).and_then(|s| s.trim().parse::<u64>().ok()).unwrap_or(from);
+            on_crash(rep, last, &ended);
+            from = last + 1;
+        } else {
+            from += n;
         }
     }
 }
@@ -2504,7 +2560,7 @@ fn runtime_constructible(rep: &mut Report) -> bool {
     }
     let m = PANIC_MSG.lock().map(|g| g.clone()).unwrap_or_default();
     rep.evaluations += 1;
-    rep.violation(&format!("Runtime::new() panicked (registration of the built-in library): {m}"), "panic runtime-new", json!({"libs": [[]], "note": "Runtime::new()", "index": 0}));
+    viol(rep, &format!("Runtime::new() panicked (registration of the built-in library): {m}"), "panic runtime-new", json!({"libs": [[]], "note": "Runtime::new()", "index": 0}));
     false
 }
 
@@ -2550,7 +2606,7 @@ fn main() {
             let total: u64 = if tier == "thorough" { 20000 } else { 600 };
             let mut rep = Report::default();
             let seed_s = seed.to_string();
-            worker::run_batches(&[&seed_s, tier], total, 250, Duration::from_secs(900), &mut rep, |rep, last, ended| {
+            run_batches_per_key(&[&seed_s, tier], total, 250, Duration::from_secs(900), &mut rep, |rep, last, ended| {
                 let (variants, note) = if (last as usize) < fixed_cases().len() {
                     let (l, n) = fixed_cases()[last as usize].clone();
                     (vec![l], n.to_string())
@@ -2564,7 +2620,7 @@ fn main() {
                     Ended::Timeout => "timeout".into(),
                     Ended::Exit(c, _) => format!("exit {c}"),
                 };
-                rep.violation(
+                viol(rep, 
                     &format!("worker died ({how}) while registering / probing a library ({note})"),
                     &format!("crash {how}"),
                     json!({"libs": libs_json(&variants[0]), "note": note, "index": last}),
